@@ -60,6 +60,23 @@ CLAIMED["C14"] = {
     "technique": "property-based testing: random programs with forced rechunks vs reference normalisation + NumPy values",
 }
 
+CLAIMED["C05"] = {
+    "text": PROG + " (single output) crossed with nine entry points (x.compute, dask.compute alone / with another array / with another array and a Delayed, x.persist, dask.persist, dask.optimize, x.optimize, x.to_delayed) and a follow-on operation on the returned collection; all values compared with the NumPy twin, name/chunks/dtype preservation checked for persist/optimize results. " + EXPL,
+    "note": "NumPy twin is the reference; three listed open findings (dask.optimize over un-lowered trees, dask.persist/optimize of sliding-window reductions, mixed array+Delayed compute with unculled tasks) are excluded by structural predicates and counted.",
+    "technique": "property-based testing: differential across entry points vs NumPy reference",
+}
+CLAIMED["C25"] = {
+    "text": "Hypothesis-generated da.store calls (1-3 source/target pairs, all region forms, shared/twin/previously-lazily-stored targets, lock/compute/return_stored/load_stored/scheduler variants, NumPy and write-recording targets) and npy-stack round trips; every target compared bitwise with its pre-image with pre[region]=source applied by NumPy, nothing written before a lazy store is computed, returned arrays equal the source. " + EXPL,
+    "note": "NumPy assignment on a copy of the target is the reference; NotImplementedError for negative-bound regions is a counted refusal; two listed open findings are matched at failure time by their scenario buckets.",
+    "technique": "property-based testing: random store calls vs NumPy assignment model, round-trip for npy stacks",
+}
+
+CLAIMED["C17"] = {
+    "text": "Hypothesis-generated operand sets (2-4 operands, rank 1-3, broadcast and rank-deficient axes, nested/interleaved/roll-shifted layouts, dtype byte ratios up to 1:16) under every policy x limit, through unify_chunks_expr, da.unify_chunks and real elemwise/where/blockwise programs; asserts one common layout per index, splits-only under refine, no block growth beyond max(limit, own largest) whenever the limit is enabled, NumPy-equal results and advertised block shapes. " + EXPL,
+    "note": "With the limit disabled (None/0 = 'unguarded' per the repository's own bench/docs) the growth bound is asserted only under refine; which layout 'auto' picks is not asserted.",
+    "technique": "property-based testing: validity predicates over unified layouts + NumPy reference for values",
+}
+
 NOT_APPLICABLE = {
     "C22": "native Rust extension cannot be built offline (pyo3 0.29 and other crates are absent from the offline cargo registry; no prebuilt .so), so no native layer can be instantiated to generate inputs against; see DESIGN.md section 4 C22",
 }
